@@ -60,7 +60,7 @@ type Shape struct {
 	NAnon  int  // number of function literals inside
 }
 
-const NumKinds = 18
+const NumKinds = 20
 
 // NewShape draws a shape.
 func NewShape(r *Rand, kind int) Shape {
@@ -350,6 +350,25 @@ outer:
 		}
 		fmt.Fprintf(&b, "\t\tout[1] = b%d\n\t}\n}\n", 12+p[2]-1)
 		return b.String()
+	case 19: // calls a package helper whose parameter types differ from package to package
+		return fmt.Sprintf(`%s(n int) int {
+	%s := scaleBy(scaleT(n), %d)
+	if %s > scaleT(%d) {
+		%s = scaleBy(%s, 2)
+	}
+	return int(%s)
+}
+`, head, v[0], p[0], v[0], p[1]+20, v[0], v[0], v[0])
+	case 18: // two callees whose names contain one another
+		return fmt.Sprintf(`%s(xs []string, n int) string {
+	%s := joinStrings(xs, ",")
+	%s := joinStringsN(xs, ";", n+%d)
+	if len(%s) > len(%s) {
+		return %s + itoa(n)
+	}
+	return %s + %q
+}
+`, head, v[0], v[1], p[0], v[0], v[1], v[0], v[1], s.Lit)
 	default: // 13: error handling chain with early returns
 		return fmt.Sprintf(`%s(a, b int) (int, error) {
 	if b == 0 {
@@ -436,6 +455,13 @@ func joinStrings(xs []string, sep string) string {
 	return out
 }
 
+func joinStringsN(xs []string, sep string, n int) string {
+	if n < len(xs) {
+		xs = xs[:n]
+	}
+	return joinStrings(xs, sep)
+}
+
 func sortStrings(xs []string) {
 	for i := 1; i < len(xs); i++ {
 		for j := i; j > 0 && xs[j] < xs[j-1]; j-- {
@@ -493,6 +519,12 @@ func RenderFile(pkg string, funcs []Func, typeDecl, generic bool) string {
 	if typeDecl {
 		sb.WriteString("type Box struct {\n\tn int\n\ts string\n}\n\n")
 		sb.WriteString(helpers)
+		// same helper name in every generated package, but its signature depends on the package's content
+		st := "int"
+		if len(funcs) > 0 {
+			st = []string{"int", "int64", "int32", "uint16"}[(funcs[0].Shape.P[0]+len(funcs))%4]
+		}
+		sb.WriteString("type scaleT = " + st + "\n\nfunc scaleBy(v, k scaleT) scaleT {\n\treturn v*k + 1\n}\n\n")
 	}
 	if generic {
 		sb.WriteString(`func MapAll[T any](xs []T, f func(T) T) []T {
@@ -503,10 +535,31 @@ func RenderFile(pkg string, funcs []Func, typeDecl, generic bool) string {
 	return out
 }
 
+// Stack is a generic named type with pointer- and value-receiver methods.
+type Stack[T any] struct{ items []T }
+
+func (s *Stack[T]) Push(v T) { s.items = append(s.items, v) }
+
+func (s *Stack[T]) Each(f func(T) T) int {
+	n := 0
+	for i, it := range s.items {
+		s.items[i] = func(x T) T {
+			n++
+			return f(x)
+		}(it)
+	}
+	return n
+}
+
+func (s Stack[T]) Len() int { return len(s.items) }
+
 func UseMapAll() (int, string) {
 	a := MapAll([]int{1, 2, 3}, func(v int) int { return v * 2 })
 	b := MapAll([]string{"a"}, func(v string) string { return v + "!" })
-	return a[0], b[0]
+	st := &Stack[int]{}
+	st.Push(a[0])
+	st.Each(func(v int) int { return v + 1 })
+	return a[0] + st.Len(), b[0]
 }
 
 `)
@@ -519,6 +572,14 @@ func UseMapAll() (int, string) {
 		}
 		sb.WriteString(f.Shape.Render(f.Name, f.Recv))
 		sb.WriteString("\n")
+	}
+	// now and then two names that differ only in letter case (an exported
+	// function next to its unexported twin)
+	if len(funcs) >= 2 && funcs[0].Shape.P[2]%2 == 0 {
+		if lower := strings.ToLower(funcs[0].Name[:1]) + funcs[0].Name[1:]; lower != funcs[0].Name {
+			sb.WriteString(funcs[1].Shape.Render(lower, funcs[0].Recv))
+			sb.WriteString("\n")
+		}
 	}
 	body := sb.String()
 	return "package " + pkg + "\n\n" + importsFor(body) + "\n" + body
